@@ -348,13 +348,45 @@ impl<'a> NonPredicateParamResolver<'a> {
     fn try_replace_expr_path_with_type(&self, path: &mut syn::Path) {
         let first_seg = path.segments.first_mut().unwrap();
 
-        if let Some(replacement) = self.const_param_replacements.get(&first_seg.ident) {
-            *first_seg = syn::parse_quote!(#replacement);
+        // NOTE: Only another name can take the place of a path segment
+        if let Some(syn::Expr::Path(replacement)) =
+            self.const_param_replacements.get(&first_seg.ident)
+        {
+            if replacement.qself.is_none() && replacement.path.get_ident().is_some() {
+                *first_seg = syn::parse_quote!(#replacement);
+            }
+        }
+    }
+
+    /// Returns the value given for a const param if the path is that param and the
+    /// value is not just another name, e.g. `3` or `{ N + 1 }` given for `N`
+    fn const_param_value(&self, path: &syn::Path) -> Option<&syn::Expr> {
+        let replacement = *self.const_param_replacements.get(path.get_ident()?)?;
+
+        match replacement {
+            syn::Expr::Path(path) if path.qself.is_none() && path.path.get_ident().is_some() => None,
+            _ => Some(replacement),
         }
     }
 }
 
 impl VisitMut for NonPredicateParamResolver<'_> {
+    fn visit_generic_argument_mut(&mut self, node: &mut syn::GenericArgument) {
+        // NOTE: Const param given as a generic argument (`Wrapper<T, N>`) is parsed as a type
+        if let syn::GenericArgument::Type(syn::Type::Path(ty)) = node {
+            if let Some(value) = ty.qself.is_none().then(|| self.const_param_value(&ty.path)).flatten() {
+                *node = match value {
+                    syn::Expr::Lit(_) | syn::Expr::Block(_) => syn::GenericArgument::Const(value.clone()),
+                    _ => syn::GenericArgument::Const(syn::parse_quote!({ #value })),
+                };
+
+                return;
+            }
+        }
+
+        syn::visit_mut::visit_generic_argument_mut(self, node);
+    }
+
     fn visit_lifetime_mut(&mut self, node: &mut syn::Lifetime) {
         if let Some(&replace_with) = self.lifetime_replacements.get(&node.ident) {
             *node = replace_with.clone();
@@ -378,6 +410,17 @@ impl VisitMut for NonPredicateParamResolver<'_> {
     }
 
     fn visit_expr_mut(&mut self, node: &mut syn::Expr) {
+        if let syn::Expr::Path(expr) = node {
+            if let Some(value) = expr.qself.is_none().then(|| self.const_param_value(&expr.path)).flatten() {
+                *node = match value {
+                    syn::Expr::Lit(_) | syn::Expr::Block(_) | syn::Expr::Paren(_) => value.clone(),
+                    _ => syn::parse_quote!((#value)),
+                };
+
+                return;
+            }
+        }
+
         match node {
             syn::Expr::Path(ty) => {
                 syn::visit_mut::visit_expr_path_mut(self, ty);
